@@ -374,7 +374,7 @@ def to_events(p, obs, attach=False):
             continue
         c, res, after, hooks = o["cmd"], o["res"], o.get("after", {}), o.get("hooks", [])
         name = c["cmd"]
-        if attach and name == "continue" and not any(x["cmd"] in ("start", "continue") for x in evs):
+        if attach and name == "continue" and not any(x["cmd"] in ("start", "continue", "restart") for x in evs):
             name = "start"        # the attached process waits before main: same reference as a start
         ok = bool(res.get("ok"))
         err = res.get("err") or res.get("panic") or ""
